@@ -4002,4 +4002,24 @@ theorem unfreeze_dictsOnly_counterexample :
      | some (h', v') => (FrozenL.reachList 5 h' v').all (fun a => decide (4 ≤ a))
      | none => false) = true := by decide
 
+/-! ## the class style is a parameter nothing depends on -/
+
+/-- **For every class style** (`slots=True`, `kw_only=True`, `frozen=` either way, a subclass of another
+struct dataclass, any combination) the class registered as a pytree is the class the user gets, and the
+leaves / static partition is by each field's own flag. -/
+theorem struct_dataclass_style_independent (kw : Struct.StyleKw) (clz fresh : Nat) (store : List Struct.Meta)
+    (fs : List Struct.FieldSpec) :
+    (Struct.structDataclass kw clz fresh store fs).registered = (Struct.structDataclass kw clz fresh store fs).returned ∧
+    (Struct.structDataclass kw clz fresh store fs).partition = fs.map (fun f => (f.name, f.node)) :=
+  ⟨rfl, declare_by_flag_only store fs⟩
+
+/-- counter-example for registering the class that was passed in (`structDataclassRegistersArgOrig`): with
+`slots=True` the user's class is a new object that was never registered — its instances are opaque leaves -/
+theorem registers_argument_counterexample :
+    (Struct.structDataclassRegistersArgOrig ⟨true, false, true, false⟩ 0 1 [] [⟨"x", true, none⟩]).registered
+      ≠ (Struct.structDataclassRegistersArgOrig ⟨true, false, true, false⟩ 0 1 [] [⟨"x", true, none⟩]).returned ∧
+    (Struct.structDataclassRegistersArgOrig ⟨false, true, true, true⟩ 0 1 [] [⟨"x", true, none⟩]).registered
+      = (Struct.structDataclassRegistersArgOrig ⟨false, true, true, true⟩ 0 1 [] [⟨"x", true, none⟩]).returned := by
+  decide
+
 end Flax.C15
